@@ -61,16 +61,30 @@ Definition enc_sb (vox : list N) : sbenc :=
   let k := bits_for (N.of_nat (length t)) in
   {| se_tbl := t; se_vals := if k =? 0 then [] else pack k (map (idx0 t) vox) |}.
 
+(* The label array is read through its rows (chunks of the row length wx), built once:
+   s.data[upos], upos = uz*dz + uy*dy + ux, is entry ux of row uz*wy + uy.  (Plain list
+   indexing costs time linear in upos under vm_compute; Proofs.Block.vol_at_rows shows the
+   two readings are the same.) *)
+Fixpoint chunks (fuel w : nat) (l : list N) : list (list N) :=
+  match fuel with
+  | O => []
+  | S f => match l with [] => [] | _ => firstn w l :: chunks f w (skipn w l) end
+  end.
+Definition rows (wx : N) (vol : list N) : list (list N) := chunks (length vol) (N.to_nat wx) vol.
+Definition vol_at (rs : list (list N)) (r x : N) : option N :=
+  match nth_N rs r with Some row => nth_N row x | None => None end.
+
 (* the 512 voxels of sub-block (sx,sy,sz) of the block at offset (ox,oy,oz) of a volume of
-   row length wx and slice height wy: s.data[upos], upos = uz*dz + uy*dy + ux *)
-Definition sb_vox (vol : list N) (wx wy ox oy oz sx sy sz : N) : res (list N) :=
+   slice height wy *)
+Definition sb_vox (rs : list (list N)) (wy ox oy oz sx sy sz : N) : res (list N) :=
   mapR (fun i =>
           let x := i mod 8 in let y := (i / 8) mod 8 in let z := i / 64 in
-          opt_res (nth_N vol (((sz * 8 + oz + z) * wy + (sy * 8 + oy + y)) * wx + (sx * 8 + ox + x))))
+          opt_res (vol_at rs ((sz * 8 + oz + z) * wy + (sy * 8 + oy + y)) (sx * 8 + ox + x)))
        (nseq 512).
 
 Definition gather (vol : list N) (wx wy ox oy oz gx gy gz : N) : res (list (list N)) :=
-  mapR (fun s => sb_vox vol wx wy ox oy oz (s mod gx) ((s / gx) mod gy) (s / (gx * gy)))
+  let rs := rows wx vol in
+  mapR (fun s => sb_vox rs wy ox oy oz (s mod gx) ((s / gx) mod gy) (s / (gx * gy)))
        (nseq (gx * gy * gz)).
 
 Fixpoint mapO {A B} (f : A -> option B) (l : list A) : option (list B) :=
@@ -81,11 +95,14 @@ Fixpoint mapO {A B} (f : A -> option B) (l : list A) : option (list B) :=
 
 (* setSubvolume + encodeBlock.  [tbl] is the block-level label table (Go: map iteration order).
    wx wy wz: volume size; ox oy oz: offset of the block in the volume; gx gy gz: sub-blocks. *)
+Definition size_checks (wx wy wz ox oy oz gx gy gz : N) : bool :=
+  negb (4294967295 <=? wx * wy * wz)                                    (* volsize.Prod() >= MaxUint32 *)
+  && negb ((gx <? 2) || (gy <? 2) || (gz <? 2))                         (* at least 16x16x16 *)
+  && negb ((wx <? ox + 8 * gx) || (wy <? oy + 8 * gy) || (wz <? oz + 8 * gz))   (* boundsCheck *)
+  && negb ((n_MaxSubBlockSize <? gx) || (n_MaxSubBlockSize <? gy) || (n_MaxSubBlockSize <? gz)).
+
 Definition encode_at (tbl : list N) (vol : list N) (wx wy wz ox oy oz gx gy gz : N) : res block :=
-  if 4294967295 <=? wx * wy * wz then Err                              (* volsize.Prod() >= MaxUint32 *)
-  else if (gx <? 2) || (gy <? 2) || (gz <? 2) then Err                  (* at least 16x16x16 *)
-  else if (wx <? ox + 8 * gx) || (wy <? oy + 8 * gy) || (wz <? oz + 8 * gz) then Err  (* boundsCheck *)
-  else if (n_MaxSubBlockSize <? gx) || (n_MaxSubBlockSize <? gy) || (n_MaxSubBlockSize <? gz) then Err
+  if negb (size_checks wx wy wz ox oy oz gx gy gz) then Err
   else
     match gather vol wx wy ox oy oz gx gy gz with
     | Ok sbs =>
@@ -118,6 +135,7 @@ Definition encode (tbl : list N) (a : list N) (gx gy gz : N) : res block :=
 Definition canon_table (sbs : list (list N)) : list N := sb_table (concat sbs).
 
 Definition encode_canon (vol : list N) (wx wy wz ox oy oz gx gy gz : N) : res block :=
+  if negb (size_checks wx wy wz ox oy oz gx gy gz) then Err else
   match gather vol wx wy ox oy oz gx gy gz with
   | Ok sbs => encode_at (canon_table sbs) vol wx wy wz ox oy oz gx gy gz
   | Err => Err
@@ -127,8 +145,9 @@ Definition encode_canon (vol : list N) (wx wy wz ox oy oz gx gy gz : N) : res bl
 (* the part of a volume covered by the block, as an array of the block's size *)
 Definition crop (vol : list N) (wx wy ox oy oz gx gy gz : N) : res (list N) :=
   let nx := 8 * gx in let ny := 8 * gy in
+  let rs := rows wx vol in
   mapR (fun p => let x := p mod nx in let y := (p / nx) mod ny in let z := p / (nx * ny) in
-                 opt_res (nth_N vol (((oz + z) * wy + (oy + y)) * wx + (ox + x))))
+                 opt_res (vol_at rs ((oz + z) * wy + (oy + y)) (ox + x)))
        (nseq (nx * ny * (8 * gz))).
 
 (* ---------------- decoding: MakeLabelVolume ---------------- *)
